@@ -214,6 +214,9 @@ func (an *Analysis) mustSucceed(c *Call, T time.Duration) (bool, arrival) {
 		case "icmp", "tcp-rst", "tcp-fin":
 			return false, arrival{}
 		}
+		if len(e.Split) > 0 {
+			return false, arrival{} // a segmented TCP reply may legitimately fail the call (wrong length)
+		}
 	}
 	arr := an.plannedArrivals(c)
 	for i, a := range arr {
@@ -339,10 +342,15 @@ func checkC09(an *Analysis, add func(Violation)) {
 		// carrying the addressed controller's serial number (whether its content is acceptable is C03's business)
 		if c.St.Op != model.GetDevices && c.St.Op.HasReply() && c.Rec != nil && !c.Rec.Obs.Failed() && c.Rec.Obs.Panic == "" {
 			got := false
+			var stream []byte
 			for _, d := range c.Reads {
 				if d.N == 64 && len(d.Data) == 64 && model.Serial(d.Data) == c.St.Args.Serial {
 					got = true
 				}
+				stream = append(stream, d.Data...)
+			}
+			if c.Route.Path == "tcp" && len(stream) >= 64 && model.Serial(stream[:64]) == c.St.Args.Serial {
+				got = true // reassembled from TCP segments
 			}
 			if !got {
 				v("success-without-reply", fmt.Sprintf("the call reported success although no reply from the addressed controller arrived (%d messages delivered, %d receive errors)", len(c.Reads), len(c.ReadFails)))
